@@ -268,6 +268,29 @@ def _gen_cases(tier, rng):
         cases.append({"op": "spans_session_arrays", "cols": [num_col(a), num_col(b), num_col(c)], "thr": DEFAULT_THR})
     cases.append({"op": "spans_session_fields", "cols": [num_col([1, 1, 2])]})
     cases.append({"op": "spans_session_arrays", "cols": [num_col([1, 1, 2])], "thr": DEFAULT_THR})
+    # any number of fields (fix NC08d): one field of every kind and length; every triple of 2-letter columns up to length 3
+    # in rotating kinds; four fields
+    for ln in range(0, 4):
+        cs = [list(c) for c in itertools.product(range(2), repeat=ln)]
+        for a in cs:
+            for ka in range(3):
+                cnt += 1
+                cases.append({"op": "spans_session_fields", "cols": [mixed_col(ka, a)], "thr": thr_for(cnt, ln), "_n": cnt})
+            cnt += 1
+            cases.append({"op": "spans_session_arrays", "cols": [num_col(a)], "thr": thr_for(cnt, ln), "_n": cnt})
+            for b in cs:
+                for c in cs:
+                    cnt += 1
+                    ks = [(cnt // 3 ** j) % 3 for j in range(3)]
+                    cases.append({"op": "spans_session_fields",
+                                  "cols": [mixed_col(ks[0], a), mixed_col(ks[1], b), mixed_col(ks[2], c)], "_n": cnt})
+                    if cnt % 4 == 0:
+                        cases.append({"op": "spans_session_arrays", "cols": [num_col(a), num_col(b), num_col(c)],
+                                      "thr": thr_for(cnt, ln), "_n": cnt})
+                    if cnt % 16 == 0:
+                        cases.append({"op": "spans_session_fields",
+                                      "cols": [mixed_col(ks[0], a), mixed_col(ks[1], b), mixed_col(ks[2], c), mixed_col(ks[0], b)],
+                                      "_n": cnt})
 
     # ---- reductions ------------------------------------------------------------------------------------------------
     nmax = 4 if quick else 5
@@ -329,8 +352,14 @@ def _gen_cases(tier, rng):
             cases.append({"op": "spans_multi", "cols": [rand_col(rng, "numeric", n, dtype="int64") for _ in range(k)],
                           "thr": rng.choice([DEFAULT_THR, n, n + 1, max(n - 1, 0)]), "_n": cnt})
         elif what == 3:
-            cases.append({"op": "spans_session_fields",
-                          "cols": [col, rand_col(rng, rng.choice(["numeric", "fixed", "indexed"]), n)], "_n": cnt})
+            k = rng.choice([1, 1, 1, 2, 3])          # further fields: 2 fields most often, up to 4
+            if rng.random() < 0.25:
+                cases.append({"op": "spans_session_arrays", "thr": rng.choice([DEFAULT_THR, n, n + 1, max(n - 1, 0)]),
+                              "cols": [rand_col(rng, "numeric", n) for _ in range(rng.choice([1, 3, 4]))], "_n": cnt})
+            else:
+                cases.append({"op": "spans_session_fields",
+                              "cols": [col] + [rand_col(rng, rng.choice(["numeric", "fixed", "indexed"]), n) for _ in range(k)],
+                              "_n": cnt})
         elif what == 4:
             s0, s1 = rand_spans(rng, n), rand_spans(rng, n)
             cases.append({"op": "spans_by_spans", "span0": s0, "span1": s1, "sdtype": rng.choice(["int32", "int64"]), "_n": cnt})
@@ -447,7 +476,7 @@ def to_model(case):
     if op in ("spans_session_arrays", "spans_multi"):
         return {"op": op, "cols": [col_to_ints(c) for c in case["cols"]], "thr": case["thr"]}
     if op == "spans_session_fields":
-        return {"op": op, "cols": [col_to_model(c) for c in case["cols"]]}
+        return {"op": op, "cols": [col_to_model(c) for c in case["cols"]], "thr": case.get("thr", DEFAULT_THR)}
     if op in ("spans_by_spans", "spans_indexed_raw"):
         return {k: v for k, v in case.items() if not k.startswith("_")}
     if op == "apply":
@@ -846,10 +875,10 @@ LEVEL_TEXT = ("Kernel-checked Lean 4 theorems, for all columns / span arrays / i
 LEVEL_NOTE = ("Not proved, only validated by the correspondence run: the "
               "behaviour on malformed span arrays (error branches), and everything the model takes from numpy/numba as given (`!=` on "
               "arrays, np.nonzero, argmin/argmax tie rule, unsigned byte order of fixed strings, apply_index_to_indexed_field). "
-              "session_get_spans_fields_eq_spec is proved only for exactly two fields (`…_partial`): Session.get_spans(fields=…) "
-              "ignores every field after the second and raises IndexError for a single one (open finding NC08d, witness theorem "
-              "Witness.C08.nc08d_third_field_ignored). The theorems speak about the code WITH the four fix patches in fixes/ applied; "
-              "on the unpatched tree the corpus cases D18/D19/NC08a/NC08b/NC08c fail and are reported as VIOLATIONs with replay.")
+              "session_get_spans_fields_eq_spec / session_get_spans_arrays_eq_spec cover ANY number of fields since fix NC08d (the "
+              "as-found behaviour - fields after the second ignored, IndexError for a single one - is kept as witness theorem "
+              "Witness.C08.nc08d_third_field_ignored). The theorems speak about the code WITH the five fix patches in fixes/ applied; "
+              "on the unpatched tree the corpus cases D18/D19/NC08a/NC08b/NC08c/NC08d fail and are reported as VIOLATIONs with replay.")
 
 # the TRANSLATED span kernels (Gen/Kernels.lean) are executed against the real kernels on cases derived from the ones above
 from checks.harness import genkernels  # noqa: E402
